@@ -1,6 +1,217 @@
 import SR.Drv.Loop
-/-! Driver commands for C16 (stub). -/
+import SR.Actor.Orl
+/-! Driver commands for C16.
+
+Model side: `orl-init`, `orl-succ` (every enabled action of a state with its successor, through `implNext`,
+i.e. through machine steps only), `orl-h` (one handler call).  Oracle side: `o-orl` (the specification side
+of `C16_prefix`, `C16_no_redelivery`, `C16_complete_when_acked`, `C16_no_early_ack` evaluated on the
+implementation's state and the logs tapped from the wrapped actors).
+
+Wire format (all collections that come out of hash maps / the network are printed as sorted lists of their
+printed items, on both sides):
+  SCN   = (dup|nondup|ord LOSSY N (ACTOR ...))   ACTOR = ((CMD ...) (RULE ...))   CMD = (s dst m) | u
+          RULE = (on from log (CMD ...))   from = any | id
+  NODE  = (((d next) ...) ((d q m) ...) ((s last) ...) ((src m) ...) ((src q m) ...) ((dst m) ...))
+  STATE = ((NODE ...) (PACKET ...))   PACKET = (src dst D q m) | (src dst A q)
+-/
 namespace SR.Drv.C16
+open SR SR.Orl
+
+abbrev WSt := List (Id × Nat)
+
+structure Rule where
+  on : Nat
+  from? : Option Nat
+  log : Bool
+  cmds : List (WCmd Nat)
+
+structure Scr where
+  start : List (WCmd Nat)
+  rules : List Rule
+
+structure Scn where
+  kind : Kind
+  lossy : Bool
+  n : Nat
+  actors : List Scr
+
+/-- the scripted wrapped actor of the harness (`Scr` in harness/src/bin/c16.rs) -/
+def mkWrapped (actors : List Scr) : Wrapped Nat WSt where
+  onStart := fun i => ([], match actors[i]? with | some a => a.start | none => [])
+  onMsg := fun i st src m =>
+    match actors[i]? with
+    | none => (some (st ++ [(src, m)]), [])
+    | some a =>
+      match a.rules.find? (fun r => r.on == m && (r.from?.isNone || r.from? == some src)) with
+      | some r => (if r.log then some (st ++ [(src, m)]) else none, r.cmds)
+      | none => (some (st ++ [(src, m)]), [])
+
+/-! ### decoding -/
+
+def cmd? : SExp → Option (WCmd Nat)
+  | .atom "u" => some WCmd.unsupported
+  | .list [.atom "s", d, m] => do pure (WCmd.send (← d.nat?) (← m.nat?))
+  | _ => none
+
+def rule? : SExp → Option Rule
+  | .list [on, fr, log, cmds] => do
+    let fr ← (match fr with | .atom "any" => some none | x => x.nat?.map some)
+    pure { on := ← on.nat?, from? := fr, log := ← log.bool?, cmds := ← cmds.listOf? cmd? }
+  | _ => none
+
+def scr? : SExp → Option Scr
+  | .list [start, rules] => do pure { start := ← start.listOf? cmd?, rules := ← rules.listOf? rule? }
+  | _ => none
+
+def scn? : SExp → Option Scn
+  | .list [.atom k, lossy, n, actors] => do
+    let kind ← (match k with | "dup" => some Kind.dup | "nondup" => some Kind.nondup | "ord" => some Kind.ordered | _ => none)
+    pure { kind, lossy := ← lossy.bool?, n := ← n.nat?, actors := ← actors.listOf? scr? }
+  | _ => none
+
+def pair? : SExp → Option (Nat × Nat) := SExp.pairOf? SExp.nat? SExp.nat?
+def triple? : SExp → Option (Nat × Nat × Nat)
+  | .list [a, b, c] => do pure (← a.nat?, ← b.nat?, ← c.nat?)
+  | _ => none
+
+def node? : SExp → Option (Node Nat WSt)
+  | .list [ns, pa, ld, ws, ha, se] => do
+    let pa ← pa.listOf? triple?
+    pure { nextSeq := ← ns.listOf? pair?, pending := pa.map (fun (d, q, m) => ((d, q), m)),
+           lastDel := ← ld.listOf? pair?, wrapped := ← ws.listOf? pair?,
+           handed := ← ha.listOf? triple?, sent := ← se.listOf? pair? }
+  | _ => none
+
+def env? : List SExp → Option (Env Nat)
+  | [.atom "D", q, m] => do pure (Env.deliver (← q.nat?) (← m.nat?))
+  | [.atom "A", q] => do pure (Env.ack (← q.nat?))
+  | _ => none
+
+def packet? : SExp → Option (Packet Nat)
+  | .list (s :: d :: rest) => do pure ⟨← s.nat?, ← d.nat?, ← env? rest⟩
+  | _ => none
+
+def state? : SExp → Option (List (Node Nat WSt) × List (Packet Nat))
+  | .list [nodes, net] => do pure (← nodes.listOf? node?, ← net.listOf? packet?)
+  | _ => none
+
+def emptyNode : Node Nat WSt := { nextSeq := [], pending := [], lastDel := [], wrapped := [], handed := [], sent := [] }
+
+def world (nodes : List (Node Nat WSt)) (net : List (Packet Nat)) : World Nat WSt :=
+  { nodes := fun i => nodes[i]?.getD emptyNode, net }
+
+/-! ### printing -/
+
+def sortStrs (l : List String) : List String := l.mergeSort (fun a b => !(decide (b < a)))
+def par (items : List String) : String := "(" ++ " ".intercalate items ++ ")"
+def parSorted (items : List String) : String := par (sortStrs items)
+
+def envStr : Env Nat → String
+  | .deliver q m => s!"D {q} {m}"
+  | .ack q => s!"A {q}"
+def packetStr (p : Packet Nat) : String := s!"({p.src} {p.dst} {envStr p.env})"
+
+def nodeStr (nd : Node Nat WSt) : String :=
+  par [ parSorted (nd.nextSeq.map fun (d, v) => s!"({d} {v})"),
+        parSorted (nd.pending.map fun ((d, q), m) => s!"({d} {q} {m})"),
+        parSorted (nd.lastDel.map fun (s, v) => s!"({s} {v})"),
+        par (nd.wrapped.map fun (s, m) => s!"({s} {m})"),
+        par (nd.handed.map fun (s, q, m) => s!"({s} {q} {m})"),
+        par (nd.sent.map fun (d, m) => s!"({d} {m})") ]
+
+def worldStr (n : Nat) (st : World Nat WSt) : String :=
+  par [par ((List.range n).map fun i => nodeStr (st.nodes i)), parSorted (st.net.map packetStr)]
+
+def actionStr : Action Nat → String
+  | .deliver p => s!"(dl {packetStr p})"
+  | .drop p => s!"(dr {packetStr p})"
+  | .timeout i => s!"(to {i})"
+
+def outcomeStr (n : Nat) : Outcome Nat WSt → String
+  | .ignored => "ignored"
+  | .panic => "panic"
+  | .invalid => "invalid"
+  | .next st => worldStr n st
+
+def ocmdStr : OCmd Nat → String
+  | .setTimer => "T"
+  | .send d e => s!"({d} {envStr e})"
+
+/-- commands in emission order; for the timer handler the resends come out of a hash map: sorted -/
+def ocmdsStr (sortSends : Bool) (out : List (OCmd Nat)) : String :=
+  let timers := (out.filter (· == OCmd.setTimer)).map ocmdStr
+  let sends := (out.filter (· != OCmd.setTimer)).map ocmdStr
+  let firstOk := match out.findIdx? (· == OCmd.setTimer) with | some i => i == 0 | none => true
+  par (timers ++ (if firstOk then [] else ["timer-not-first"]) ++ (if sortSends then sortStrs sends else sends))
+
+/-! ### the ordered network: the flow heads are an input; check they are consistent with the multiset -/
+
+def sameFlow (p q : Packet Nat) : Bool := p.src == q.src && p.dst == q.dst
+
+def headsOk (net heads : List (Packet Nat)) : Bool :=
+  heads.all (· ∈ net) && (heads.map fun p => (p.src, p.dst)).Nodup && net.all (fun p => heads.any (sameFlow p))
+
+/-! ### oracle: the property, stated over what the implementation shows -/
+
+def maxId (nodes : List (Node Nat WSt)) : Nat :=
+  (nodes.flatMap fun nd => nd.sent.map (·.1) ++ nd.pending.map (·.1.1)).foldl max nodes.length
+
+def oracle (nodes : List (Node Nat WSt)) (net : List (Packet Nat)) : List String :=
+  let n := nodes.length
+  (List.range n).flatMap fun s => (List.range (maxId nodes + 1)).flatMap fun d =>
+    let S := nodes[s]?.getD emptyNode
+    let sent := sentTo S d
+    let handed := match nodes[d]? with | some R => handedFrom R s | none => []
+    let msgs := handed.map (·.2)
+    let seqs := handed.map (·.1)
+    let pendingTo := S.pending.filter (fun e => e.1.1 == d)
+    let tag := s!"[{s}->{d}]"
+    (if msgs.isPrefixOf sent then [] else [s!"handed-not-a-prefix-of-sent{tag}"]) ++
+    (if seqs == List.range' 1 seqs.length then [] else [s!"not-exactly-once-in-order{tag}"]) ++
+    (if pendingTo.isEmpty && msgs != sent then [s!"all-acknowledged-but-handed≠sent{tag}"] else []) ++
+    (if net.all (fun p => match p.env with
+        | .ack q => !(p.src == d && p.dst == s) || (1 ≤ q && q ≤ handed.length)
+        | .deliver q m => !(p.src == s && p.dst == d) || (1 ≤ q && sent[q - 1]? == some m))
+      then [] else [s!"ack-before-handover-or-fabricated-deliver{tag}"]) ++
+    (if (List.range' 1 sent.length).all (fun q => pendingTo.any (fun e => e.1.2 == q) || q ≤ handed.length)
+      then [] else [s!"acknowledged-and-discarded-before-handover{tag}"])
+
+/-! ### commands -/
+
 def handle : Drv.Handler
+  | "orl-init", [scn] => do
+    let scn ← scn? scn
+    let W := mkWrapped scn.actors
+    pure (match init W scn.n with | none => "panic" | some st => worldStr scn.n st)
+  | "orl-succ", [scn, st, heads] => do
+    let scn ← scn? scn
+    let (nodes, net) ← state? st
+    let W := mkWrapped scn.actors
+    let w := world nodes net
+    let deliverable ← (if scn.kind == Kind.ordered then heads.listOf? packet? else some net)
+    if scn.kind == Kind.ordered && !headsOk net deliverable then pure "bad-heads" else
+    let acts := implActions scn.n scn.lossy deliverable
+    let items := acts.map fun a => s!"({actionStr a} {outcomeStr scn.n (implNext W scn.n scn.kind w a)})"
+    pure (parSorted items)
+  | "orl-h", [scn, id, nd, ev] => do
+    let scn ← scn? scn
+    let id ← id.nat?
+    let nd ← node? nd
+    let W := mkWrapped scn.actors
+    match ev with
+    | .atom "t" => pure s!"(b {ocmdsStr true (onTimeout nd)})"
+    | .list [.atom "m", src, .list env] => do
+      let src ← src.nat?
+      let env ← env? env
+      pure (match onMsg W id nd src env with
+        | none => "panic"
+        | some (none, out) => s!"(b {ocmdsStr false out})"
+        | some (some nd', out) => s!"(o {nodeStr nd'} {ocmdsStr false out})")
+    | _ => none
+  | "o-orl", [st] => do
+    let (nodes, net) ← state? st
+    let errs := oracle nodes net
+    pure (if errs.isEmpty then "ok" else " ".intercalate errs)
   | _, _ => none
+
 end SR.Drv.C16
